@@ -84,7 +84,20 @@ class Scale:
         return sc.scalar(float(d * self.d0), unit='m')
 
 
-def make_chopper(cc, sc_, d, win):
+def listed(win, mode):
+    """The windows of one chopper in the order they are listed in the Chopper object: the API does not
+    ask for sorted windows (from_disk_chopper lists an anticlockwise multi-slit disk in decreasing
+    order within a rotation), and which neutrons pass does not depend on the listing order."""
+    win = list(win)
+    if mode % 3 == 1:
+        win.reverse()
+    elif mode % 3 == 2 and len(win) > 1:
+        win = win[1:] + win[:1]
+    return win
+
+
+def make_chopper(cc, sc_, d, win, mode=0):
+    win = listed(win, mode)
     return cc.Chopper(
         distance=sc_.distance(d),
         time_open=sc.array(dims=['cutout'], values=[float(o * sc_.tau) for o, _ in win], unit='s'),
@@ -237,7 +250,7 @@ def replay_enumerated(ctx, rec, cc, case, idx, rng):
     pts = grid_neutrons(pulse)
     desc = {'pulse': pulse, 'choppers': case['choppers'], 'distance_unit_m': str(sc_.d0),
             'wavelength_unit_angstrom': str(sc_.lam0), 'expected_polygons_at_dfinal_scaled_by_L': case['expect']}
-    real = [make_chopper(cc, sc_, d, win) for d, win in chs]
+    real = [make_chopper(cc, sc_, d, win, idx + j) for j, (d, win) in enumerate(chs)]
     n = len(chs)
 
     def obs(frame, k, dist, shape, extra=None):
@@ -360,7 +373,7 @@ def run_program(ctx, rng, cc, sc_, pulse, chs, dfin, desc):
                 fs = fs.propagate_to(sc_.distance(dmid))
                 meta.append((dmid, meta[-1][1]))
                 calls.append(['propagate_to', dmid])
-        fs = fs.chop([make_chopper(cc, sc_, *chs[i]) for i in group])
+        fs = fs.chop([make_chopper(cc, sc_, *chs[i], mode=rng.randrange(3)) for i in group])
         calls.append(['chop', group])
         for j in range(k, k + take):
             meta.append((chs[j][0], j + 1))
